@@ -60,6 +60,21 @@ CHECKS = {
         "executed on CountingBloomFilter incl. coinciding positions, with the undo clause evaluated on exported bytes. Counting cuckoo: Cuckoo.tla with "
         "Counting=TRUE (CountExact), every eviction/expansion path forced through the real class.",
         note="Below saturation, legitimate removals only (as stated).", design="6 (C08)", technique=TECH),
+    "C09": dict(
+        category="model_checking",
+        text="spec/ExpandingBloom.tla: queue of sub-filters, growth test before each effective insertion, history oracles (calls, effective insertions, "
+        "explicit pushes); invariants SubCap, Growth (expansions = max(0, ceil(I/est)-1) on push-free histories), TotalIsCalls and action property "
+        "DupInsertsNothing checked by TLC; every generated transition (add new/duplicate/forced, push, export+load through each channel and continuing "
+        "afterwards) executed on ExpandingBloomFilter with clauses stated over the code's own pre-add answers and its exported bytes.",
+        note="est_elements 1..3 with the real geometries these give, 4 keys, table-driven hash functions (false positives are frequent).",
+        design="6 (C09)", technique=TECH),
+    "C10": dict(
+        category="model_checking",
+        text="spec/ExpandingBloom.tla with Rotating=TRUE: invariants QueueBound, SubCap, Window (a key inserted while reported absent stays present while at "
+        "most (qmax-1)*est further effective insertions happened and no explicit push/pop), action properties PresentAfterAdd, PopRefused; every generated "
+        "transition executed on RotatingBloomFilter, the window clause evaluated for every key of the history from the code's own answers.",
+        note="max_queue_size 1..3, est_elements 1..3; the window clause is read in its weakest form (strictly fewer than (qmax-1)*est further insertions).",
+        design="6 (C10)", technique=TECH),
     "C12": dict(
         category="model_checking",
         text="Union of every pair of reachable operand states (plain, on-disk in either position, counting) and count-min join are derived in the model "
